@@ -201,7 +201,10 @@ func init() {
 	register(&spec{
 		ID: "C11", Title: "Deleted and paused sets are left alone, and a pause is lossless",
 		Runs: []runSpec{
-			syncRun("sync", []int{1, 2, 1, yPause | yDeleting | yOwnerDims | yOrphanRevs, nC11}, []int{2, 2, 1, yPause | yDeleting | yOwnerDims | yHealthDims | yOrphanRevs, nC11},
+			syncRun("sync", []int{1, 2, 1, yPause | yDeleting | yOwnerDims | yOrphanRevs, nC11}, []int{1, 2, 1, yPause | yDeleting | yOwnerDims | yHealthDims | yOrphanRevs, nC11},
+				[]string{"a paused set is not written at all", "no pod or claim write for a set being deleted"},
+				[]string{"paused set reconciled", "deleting set reconciled"}),
+			syncRun("sync-two-pods", []int{2, 2, 1, yPause | yDeleting | yHealthDims | yOrphanRevs, nC11}, []int{2, 2, 1, yPause | yDeleting | yHealthDims | yOrphanRevs, nC11},
 				[]string{"a paused set is not written at all", "no pod or claim write for a set being deleted"},
 				[]string{"paused set reconciled", "deleting set reconciled"}),
 			syncRun("sync-stale-cache", []int{1, 1, 0, yStaleCache | yOwnerDims | yOrphanRevs, nC11}, []int{2, 1, 0, yStaleCache | yOwnerDims | yOrphanRevs, nC11},
